@@ -20,6 +20,7 @@ type GenCfg struct {
 	BigRegexp         bool // allow regexps with negated classes / dots (large rune tables)
 	CustomStmts       bool // Custom bodies may skip, signal, register cleanups, probe contexts
 	SmallInts         bool // leaf integers from small ranges (values that shrink visibly)
+	LenCap            int  // > 0: collections never have an unbounded maximum length (keeps recordings of nested collections small)
 	CustomNonFatal    bool // Custom bodies may signal non-fatally (verdict-only checks)
 	CleanupBeforeSkip bool // Custom bodies register a (non-signalling) cleanup before the part that may skip (C10)
 }
@@ -426,6 +427,21 @@ func genPred(dt *drv.T, s *GenSpec) {
 	}
 }
 
+func capLenOf(cfg GenCfg, min, max int) (int, int) {
+	if cfg.LenCap > 0 && max < 0 {
+		if min > 0 {
+			return min, min + cfg.LenCap
+		}
+		return min, cfg.LenCap
+	}
+	return min, max
+}
+
+func capLen(cfg GenCfg, dt *drv.T, maxMax int) (int, int) {
+	min, max := genLenBounds(dt, cfg.Hostile, maxMax)
+	return capLenOf(cfg, min, max)
+}
+
 // GenGenSpec generates a generator expression.
 func GenGenSpec(dt *drv.T, cfg GenCfg) *GenSpec {
 	if cfg.Depth <= 0 {
@@ -446,7 +462,7 @@ func GenGenSpec(dt *drv.T, cfg GenCfg) *GenSpec {
 	switch pick(dt, "node", menu...) {
 	case "slice", "distinct":
 		s := &GenSpec{K: "slice", Short: chance(dt, "short", 50)}
-		s.Min, s.Max = genLenBounds(dt, cfg.Hostile, 8)
+		s.Min, s.Max = capLen(cfg, dt, 8)
 		s.Sub = []*GenSpec{GenGenSpec(dt, sub)}
 		if chance(dt, "distinct", 40) || cfg.RejectHeavy {
 			genKeyFn(dt, s, isScalarSpec(s.Sub[0]))
@@ -454,12 +470,12 @@ func GenGenSpec(dt *drv.T, cfg GenCfg) *GenSpec {
 		return s
 	case "map":
 		s := &GenSpec{K: "map", Short: chance(dt, "short", 50)}
-		s.Min, s.Max = genLenBounds(dt, cfg.Hostile, 6)
+		s.Min, s.Max = capLen(cfg, dt, 6)
 		s.Sub = []*GenSpec{genScalarSpec(dt, sub), GenGenSpec(dt, sub)}
 		return s
 	case "mapvalues":
 		s := &GenSpec{K: "mapvalues", Short: chance(dt, "short", 50)}
-		s.Min, s.Max = genLenBounds(dt, cfg.Hostile, 6)
+		s.Min, s.Max = capLen(cfg, dt, 6)
 		s.Sub = []*GenSpec{GenGenSpec(dt, sub)}
 		genKeyFn(dt, s, isScalarSpec(s.Sub[0]))
 		return s
